@@ -20,24 +20,40 @@ LEVEL_TEXT = ("Coq theorems over an exact-rational (missing value = None) model 
               "old_step/old_c_mean with their refutations as regression witnesses); "
               "the float round trip rnd(rnd(s*rnd(rnd(1/s)*rnd(x-l)))+l) is within 4u|x-l|+u|x|+O(u^2) of x in the standard model of floating-point "
               "arithmetic, instantiated for 53-bit round-to-nearest (Flocq FLX); DenseScaledMatrix: untransform inverts transform, unscale/rescale in place keep scale*mat+location; "
+              "operations that do not re-standardise (reorder/sort/group_taxa, copies) keep every raw value (un-scaling commutes with selection), the stored column is "
+              "covariant under a change of unit and origin, histories are compositional; "
+              "the kernel expressions of the source (standardisation, un-scaling, per-summary reduction and un-scaling rule, zero-scale rule, contribution of matrix operands, "
+              "numpy call tables of the taxa routines, DenseScaledMatrix updates) are regenerated from the source on every run (Gen/C15_Kernel.v), proved equal to the model's "
+              "and the round-trip / scale-rule / covariance laws are proved about the generated definitions; "
               "the model is tied to the code by evaluating it inside Coq against every intermediate state of generated histories")
 LEVEL_NOTE = ("trusted: Coq kernel + vm_compute; float rounding is not modelled: location and scale of every step are taken from the implementation and "
               "checked inside Coq against the exact nanmean / nanvar (scale = 1 exactly iff the exact variance is 0), everything else is compared within "
               "2^-30(1+|x|) of the exact rational, NaN patterns, labels, arg-extrema (up to exact ties after the first step) and error/no-error exactly; "
-              "theorems are about the Gallina model, the tie to the code is differential on generated inputs")
+              "theorems are about the Gallina model, the tie to the code is differential on generated inputs plus the regenerated kernel expressions "
+              "(translator harness/translate/c15_kernel.py, fail closed, trusted); the 2^-30(1+|x|) tolerance is vacuous for values far below 1: for those only the "
+              "predicate's scale-aware criteria (relative to the largest raw value of the trait) and the kernel theorems speak")
 TECHNIQUE = "Coq proof over an executable exact-rational model; in-Coq vm_compute correspondence with the implementation on operation histories"
 RULE = ("case = (class B/E/G, raw matrix with optional taxa/taxa_grp labels — built by from_numpy, or (12%) by the constructor from stored values with an "
         "arbitrary location / positive scale —, list of taxa-axis operations with their operands) or (DenseScaledMatrix, "
-        "matrix, location, scale, op list); one PRNG; n in 0..20 (1,2 frequent), t in 1..4; per-trait column kinds: dyadic grid k/2^6, constant, few-valued "
-        "(ties), offset +-2^20 with step 8, NaN-sprinkled, all-NaN; operations select/delete/insert/adjoin (copies), remove/append/incorp (in place), "
-        "concat_taxa (self at any position among 1-2 other matrices); operands as ndarray or as a second matrix of any of the three classes; "
+        "matrix, location, scale, op list incl. copies); one PRNG; n in 0..20 (1,2 frequent; fixed cases with 130/260/300 taxa, thorough: random 128..300), t in 1..4; "
+        "per-trait column kinds: dyadic grid k/2^6, the grid scaled by 2^-40 or 2^20, 1 + k 2^-16, constant, few-valued "
+        "(ties), offset +-2^20 with step 8, NaN-sprinkled, all-NaN; operations select/delete/insert/adjoin (copies), remove/append/incorp (in place, on the SAME object "
+        "whose summaries were just read), reorder_taxa / sort_taxa / group_taxa(+ungroup) (in place, no re-standardisation), copy/deepcopy (method and copy module) and "
+        "re-assignment through the property setters, concat_taxa (self at any position among 0-2 other matrices); 20% of the operations go through the generic "
+        "dispatchers (select(..., axis=0/-2) ...); indices as array/list/tuple, int, index list or slice; operands as ndarray or as a second matrix of any of the three classes; "
+        "after every step: the source / the operands are unchanged and share no array with the result, matrices left behind are unchanged at the end; "
         "non-trivial = at least 2 operations of which one changes the taxa list of a matrix with >= 2 distinct raw rows; distinct by SHA-256 of the case")
 TRUSTED = ["the rounding-error theorem is about an abstract rounding operator with relative error u (Flocq FLX instance: no overflow/underflow); that numpy's float64 "
            "operations are such roundings is not proved, the predicate checks the bound (with slack 5u(|x-l|+|x|)) on every first-step entry",
            "numpy nanmean/nanstd/std/var/max/min/ptp/argmax/argmin: not modelled bit-exactly; their results enter the model as given location/scale "
            "(checked against exact nanmean/nanvar in Coq) or are compared in regime T (2^-30 relative) with the exact rational",
-           "numpy.take/delete/insert/append index semantics are modelled by list functions validated on every generated case"]
-ASSUMPTIONS = ["raw values on dyadic grids (|x| <= 64 step 2^-6, or +-2^20 offsets with step 8) so that the rounding error stays far below the 2^-30 tolerance",
+           "numpy.take/delete/insert/append index semantics are modelled by list functions validated on every generated case",
+           "reorder_taxa / sort_taxa / group_taxa / copies are evaluated in Coq as the selection by the corresponding permutation (identity for a copy) with the "
+           "location / scale the implementation kept; the expected order of sort_taxa()/group_taxa() (taxa_grp, then taxa name, stable) is computed by the harness",
+           "harness/translate/c15_kernel.py + pyexpr.py (ast -> Gallina, fail closed) and the entry-point enumeration (every method of the four anchored files and every "
+           "inherited public routine is driven or listed in SKIPPED / INHERITED_SKIPPED with a reason)"]
+ASSUMPTIONS = ["raw values on dyadic grids (|x| <= 64 step 2^-6, that grid times 2^-40 or 2^20, 1 + k 2^-16, or +-2^20 offsets with step 8) so that the rounding error stays far below the tolerances",
+               "trait-axis routines inherited by the breeding-value matrices (select_trait ... sort_trait) are outside the property (taxa-axis operations) and not driven",
                "ntrait >= 1; insert/incorp with an index list use as many value rows as indices (numpy broadcasting of a single row not generated)",
                "numpy.insert does not validate an index *list* (entries below -n wrap around in the enlarged array): such a step is not modelled, "
                "the history is compared up to it and the predicate resynchronises on the implementation's state",
@@ -200,7 +216,7 @@ def _gen_bv(rng, tier, more_inplace):
             if _operand_accepted(op, cls, has_taxa, has_grp): n += k
         else:                                                       # concat_taxa([self, others...])
             others = []
-            for _ in range(rng.choice([1, 1, 2])):
+            for _ in range(rng.choice([0, 1, 1, 1, 2, 2])):            # 0: concat_taxa([self]) alone must still build a new matrix
                 k = rng.choice([0, 1, 2, 3])
                 ot, og = _labels(rng, ids, k, has_taxa if rng.random() < 0.85 else not has_taxa, has_grp if rng.random() < 0.92 else not has_grp)
                 others.append({"cls": cls if rng.random() < 0.85 else rng.choice(["B", "E", "G"]), "raw": _rows(rng, k, kinds, nanrate, True), "taxa": ot, "grp": og})
@@ -1109,9 +1125,105 @@ def emit_case(case, out):
     if "exc" in out: return "false"
     return _emit_bv(case, out) if case["kind"] == "bv" else _emit_scaled(case, out)
 
+# ------------------------------------------------------------------ entry points of the anchored modules (fail closed)
+_BVF = "pybrops/popgen/bvmat/DenseBreedingValueMatrix.py"
+_SMF = "pybrops/core/mat/DenseScaledMatrix.py"
+_C16 = "file / data-frame conversion: property C16 (saving, loading and copying reproduce objects exactly)"
+# file -> class -> {method: parameters}: every one is driven by run_impl with these parameters
+COVERED = {
+    _BVF: {"DenseBreedingValueMatrix": {
+        "__init__": ["self", "mat", "location", "scale", "taxa", "taxa_grp", "trait", "**kwargs"],      # `direct` cases and every from_numpy
+        "__copy__": ["self"], "__deepcopy__": ["self", "memo"], "copy": ["self"], "deepcopy": ["self", "memo"],      # op copy
+        "mat": ["self", "value"], "location": ["self", "value"], "scale": ["self", "value"],                          # op copy, how = setters (+ getters everywhere)
+        "adjoin_taxa": ["self", "values", "taxa", "taxa_grp", "**kwargs"], "delete_taxa": ["self", "obj", "**kwargs"],
+        "insert_taxa": ["self", "obj", "values", "taxa", "taxa_grp", "**kwargs"], "select_taxa": ["self", "indices", "**kwargs"],
+        "_restandardize": ["self", "mat"], "_manipulate_unscaled": ["self", "method", "**kwargs"],
+        "append_taxa": ["self", "values", "taxa", "taxa_grp", "**kwargs"], "remove_taxa": ["self", "obj", "**kwargs"],
+        "incorp_taxa": ["self", "obj", "values", "taxa", "taxa_grp", "**kwargs"],
+        "targmax": ["self"], "targmin": ["self"], "tmax": ["self", "unscale"], "tmean": ["self", "unscale"], "tmin": ["self", "unscale"],
+        "trange": ["self", "unscale"], "tstd": ["self", "unscale"], "tvar": ["self", "unscale"], "unscale": ["self"],
+        "concat_taxa": ["cls", "mats", "**kwargs"], "from_numpy": ["cls", "mat", "taxa", "taxa_grp", "trait", "**kwargs"]}},
+    "pybrops/popgen/bvmat/DenseEstimatedBreedingValueMatrix.py": {"DenseEstimatedBreedingValueMatrix": {
+        "__init__": ["self", "mat", "location", "scale", "taxa", "taxa_grp", "trait", "**kwargs"]}},
+    "pybrops/popgen/bvmat/DenseGenomicEstimatedBreedingValueMatrix.py": {"DenseGenomicEstimatedBreedingValueMatrix": {
+        "__init__": ["self", "mat", "location", "scale", "taxa", "taxa_grp", "trait", "**kwargs"]}},
+    _SMF: {"DenseScaledMatrix": {
+        "__init__": ["self", "mat", "location", "scale", "**kwargs"], "__copy__": ["self"], "__deepcopy__": ["self", "memo"],
+        "copy": ["self"], "deepcopy": ["self", "memo"], "location": ["self", "value"], "scale": ["self", "value"],
+        "transform": ["self", "mat", "copy"], "untransform": ["self", "mat", "copy"], "rescale": ["self", "inplace"], "unscale": ["self", "inplace"]}},
+}
+SKIPPED = {
+    _BVF: {"DenseBreedingValueMatrix.__repr__": "textual representation, no values",
+           "DenseBreedingValueMatrix.to_pandas": _C16, "DenseBreedingValueMatrix.to_csv": _C16, "DenseBreedingValueMatrix.to_hdf5": _C16,
+           "DenseBreedingValueMatrix.from_pandas": _C16, "DenseBreedingValueMatrix.from_csv": _C16, "DenseBreedingValueMatrix.from_hdf5": _C16,
+           "check_is_DenseBreedingValueMatrix": "type guard"},
+    "pybrops/popgen/bvmat/DenseEstimatedBreedingValueMatrix.py": {"check_is_DenseEstimatedBreedingValueMatrix": "type guard"},
+    "pybrops/popgen/bvmat/DenseGenomicEstimatedBreedingValueMatrix.py": {"check_is_DenseGenomicEstimatedBreedingValueMatrix": "type guard"},
+    _SMF: {"check_is_DenseScaledMatrix": "type guard"},
+}
+# public routines a breeding-value matrix INHERITS (run-time introspection): driven, or skipped with a reason
+_TRAIT = ("trait-axis routine inherited from DenseTaxaTraitMatrix/DenseTraitMatrix: not a taxa-axis operation (outside the property's quantifier); "
+          "NB they are not overridden: the copy-on-manipulation ones rebuild the matrix with location 0 / scale 1 (TypeError in the two subclasses), "
+          "the in-place ones leave location / scale with the old length or order")
+INHERITED_COVERED = {"select", "delete", "insert", "adjoin", "append", "remove", "incorp", "concat",        # op[...]["via"]: generic dispatchers, taxa axis as 0 / -2
+                     "reorder", "reorder_taxa", "sort", "sort_taxa", "lexsort_taxa", "group", "group_taxa", "ungroup_taxa", "is_grouped_taxa"}
+INHERITED_SKIPPED = dict(
+    {n: _TRAIT for n in ("adjoin_trait", "append_trait", "concat_trait", "delete_trait", "incorp_trait", "insert_trait", "remove_trait", "reorder_trait",
+                         "select_trait", "sort_trait", "lexsort_trait")},
+    **{"lexsort": "returns indices only (its taxa form lexsort_taxa is what sort_taxa / group_taxa call)", "ungroup": "dispatcher of ungroup_taxa (metadata only: property C03)",
+       "is_grouped": "dispatcher of is_grouped_taxa (metadata only: property C03)"})
+
+def _entry_points(repo):
+    """every class, method and module-level function of the four anchored files is either driven by run_impl (COVERED, with exactly
+    the parameters named there) or listed in SKIPPED with a reason; every public routine the breeding-value matrix inherits is
+    classified likewise; anything new, re-parametrised or vanished fails the check until it is classified"""
+    import ast, inspect
+    from translate import pyexpr as P
+    for rel, classes in COVERED.items():
+        tree = P.parse_file(repo, rel)
+        skip = SKIPPED.get(rel, {})
+        seen = set()
+        for n in tree.body:
+            if isinstance(n, ast.FunctionDef):
+                seen.add(n.name)
+                if n.name not in skip: raise P.Untranslatable("%s: new function %s is neither driven by the C15 check nor listed in SKIPPED" % (rel, n.name))
+            elif isinstance(n, ast.ClassDef):
+                if n.name not in classes: raise P.Untranslatable("%s: new class %s is not classified" % (rel, n.name))
+                cov = classes[n.name]
+                for m in n.body:
+                    if not isinstance(m, ast.FunctionDef): continue
+                    q = "%s.%s" % (n.name, m.name); seen.add(q)
+                    params = [a.arg for a in m.args.args] + [a.arg for a in m.args.kwonlyargs] + (["**" + m.args.kwarg.arg] if m.args.kwarg else [])
+                    if m.args.vararg: params.append("*" + m.args.vararg.arg)
+                    if m.name in cov:
+                        getter = any(ast.unparse(d) == "property" for d in m.decorator_list)
+                        if not getter and params != cov[m.name]:
+                            raise P.Untranslatable("%s: %s now takes %s (the driver passes %s): extend the generators" % (rel, q, params, cov[m.name]))
+                    elif q not in skip:
+                        raise P.Untranslatable("%s: new method %s is neither driven by the C15 check nor listed in SKIPPED" % (rel, q))
+                for name in cov:
+                    if "%s.%s" % (n.name, name) not in seen: raise P.Untranslatable("%s: %s.%s has disappeared" % (rel, n.name, name))
+                seen.add(n.name)
+        for cname in classes:
+            if cname not in seen: raise P.Untranslatable("%s: class %s has disappeared" % (rel, cname))
+        for name in skip:
+            if name not in seen: raise P.Untranslatable("%s: %s (listed in SKIPPED) has disappeared" % (rel, name))
+    # inherited public routines (the source tree under test is the one imported: check.py verifies that)
+    own = set(COVERED[_BVF]["DenseBreedingValueMatrix"]) | {k.split(".", 1)[1] for k in SKIPPED[_BVF] if "." in k}
+    B = _cls("B")
+    for name, member in inspect.getmembers(B):
+        if name.startswith("_") or name in own: continue
+        if isinstance(inspect.getattr_static(B, name), property): continue          # read-only views / label setters (labels: property C03)
+        if not callable(member): continue
+        if name not in INHERITED_COVERED and name not in INHERITED_SKIPPED:
+            raise P.Untranslatable("DenseBreedingValueMatrix inherits a public routine %s that is neither driven by the C15 check nor listed in INHERITED_SKIPPED" % name)
+    for name in list(INHERITED_COVERED) + list(INHERITED_SKIPPED):
+        if not callable(getattr(B, name, None)): raise P.Untranslatable("DenseBreedingValueMatrix no longer has the inherited routine %s" % name)
+
 # ------------------------------------------------------------------ kernel expressions regenerated from the source
 def translate(repo, gen_dir):
     """regenerate Gen/C15_Kernel.v (standardisation, un-scaling rules, reductions, zero-scale rule, operand contributions,
     numpy call tables of the taxa routines, DenseScaledMatrix kernels) from the current source; fail closed"""
     from translate import c15_kernel
+    _entry_points(repo)
     return [c15_kernel.translate(repo, gen_dir)]
